@@ -1085,12 +1085,16 @@ class HeteroscedasticConditional(conditional.ConditionalGaussianPDF):
     
     def _get_omega_star(self, p_x: pdf.GaussianPDF, y: jnp.ndarray, W_i: Float[Array, "Dx+1"], a_i: Float[Array, "Dy"]):
         omega_star = self._get_omega_dagger(p_x=p_x, W_i=W_i)
-        omega_dagger = omega_star
+        # previous iterate: anything that differs from the start value, otherwise the loop condition is false on entry
+        omega_dagger = omega_star + 1.
         iteration = 0
         cond_func = lambda val: jnp.logical_and(jnp.max(jnp.abs(val[0] - val[1])) > 1e-5, val[2] < 100)
         
         def body_func(val):
-            return self._update_omega_star(p_x=p_x, y=y, W_i=W_i, a_i=a_i, omega_star=val[0]), val[0], val[2] + 1
+            omega_new = self._update_omega_star(p_x=p_x, y=y, W_i=W_i, a_i=a_i, omega_star=val[0])
+            # far in the tails the moment ratio can be 0/0: keep the last finite iterate (the bound holds for every omega)
+            omega_new = jnp.where(jnp.isfinite(omega_new), omega_new, val[0])
+            return omega_new, val[0], val[2] + 1
         omega_star, _, _ = lax.while_loop(cond_func, body_func, (omega_star, omega_dagger, iteration))
         return omega_star
     
